@@ -25,14 +25,5 @@ class C03(FloorProp):
     def nontrivial(self, stats):
         return stats.get('reach', {}).get('probes', 0) >= 1 and stats.get('parts_generated', 0) >= 2
 
-    def sanity(self, agg, tier):
-        errs = []
-        if agg.get('reach', {}).get('blocked_parts_confirmed', 0) < 100:
-            errs.append('C03: fewer than 100 blocked parts were probed')
-        for k in ('fail', 'shutdown', 'block', 'addres', 'adjust', 'rewire', 'restore'):
-            if agg.get('faults', {}).get(k, 0) == 0:
-                errs.append(f'C03: fault kind {k} never fired')
-        return errs
-
 
 PROP = C03()
